@@ -1,8 +1,10 @@
 (* Props/C01.v — C01 Field storage round-trip: statements only (proofs in Proofs/StoreProofs.v,
-   Proofs/IdxWriterProofs.v, Proofs/IdxReadProofs.v).  Model: Model/IdxWriter.v (the repaired
-   tree: fix-F-C01a, fix-F-C01c, fix-F-C01d); spec: Spec/IdxWriterSpec.v. *)
+   Proofs/IdxWriterProofs.v, Proofs/IdxReadProofs.v, Proofs/FieldWorldProofs.v, Proofs/FieldAliasProofs.v).
+   Model: Model/IdxWriter.v (the repaired tree: fix-F-C01a, fix-F-C01c, fix-F-C01d), Model/FieldWorld.v
+   (several fields; arrays as objects); spec: Spec/IdxWriterSpec.v, Spec/FieldWorldSpec.v. *)
 From Coq Require Import ZArith List.
 From EV Require Import Res Arr IdxWriter IdxWriterSpec StoreProofs IdxWriterProofs IdxReadProofs.
+From EV Require Import FieldWorld FieldWorldSpec FieldWorldProofs FieldAliasProofs.
 Import ListNotations.
 Open Scope Z_scope.
 
@@ -160,3 +162,77 @@ Theorem clear_with_staged_data_outside_property :
   /\ hist_written [] [OpPart [[97]]; OpClear; OpWrite [[98]]] = [[98]].
 Proof. exact clear_with_staged_data_lemma. Qed.
 Print Assumptions clear_with_staged_data_outside_property.
+
+(* ==== histories over several objects (Model/FieldWorld.v) ======================================= *)
+
+(* FULL.  Fields are independent (frame property), for any fields in any state and any interleaved
+   history: what field i holds afterwards is what its own operations alone produce. *)
+Theorem fields_independent : forall (fs fs':list fld) (h:list (Z * mop)) (i:Z) (f:fld),
+  world_run fs h = Ok fs' -> get 30 fs i = Ok f ->
+  exists f', get 30 fs' i = Ok f' /\ fld_run f (proj i h) = Ok f'.
+Proof. exact fields_independent_lemma. Qed.
+Print Assumptions fields_independent.
+
+(* FULL.  Two interleavings of the same per-field histories leave every field in the same state. *)
+Theorem interleavings_agree : forall (fs fs1 fs2:list fld) (h1 h2:list (Z * mop)),
+  (forall i, proj i h1 = proj i h2) ->
+  world_run fs h1 = Ok fs1 -> world_run fs h2 = Ok fs2 ->
+  forall i, get 30 fs1 i = get 30 fs2 i.
+Proof. exact interleavings_agree_lemma. Qed.
+Print Assumptions interleavings_agree.
+
+(* FULL.  The round trip for every interleaving: any number of fresh fields (indexed strings with any
+   chunk sizes >= 1 — equal or not —, plain fields, either backing each), any interleaved history whose
+   per-field projections are histories of the property (reads anywhere): the run succeeds and every
+   field holds the prefix sums / concatenation (resp. the sequence) of what was written TO THAT FIELD. *)
+Theorem interleaved_roundtrip : forall (specs:list fspec) (h:list (Z * mop)),
+  world_ok specs h ->
+  exists fs, world_history specs h = Ok fs /\ len fs = len specs /\
+    forall i s, get 30 specs i = Ok s ->
+      exists f, get 30 fs i = Ok f /\ field_holds s f (field_written i h).
+Proof. exact interleaved_roundtrip_lemma. Qed.
+Print Assumptions interleaved_roundtrip.
+
+Example interleaved_roundtrip_ex :
+  let specs := [SIdx true 2; SIdx true 2; SPlain false] in
+  let h := [(0, MOp (OpPart [[97]; [98; 99]])); (1, MOp (OpPart [[65]])); (2, MOp (OpPart [[1]; [2]]));
+            (0, MOp (OpPart [[100]])); (1, MRead); (1, MOp OpComplete); (0, MOp OpComplete); (2, MOp OpComplete)] in
+  hist_ok false (mops_iw (proj 0 h)) = true /\ hist_ok false (mops_iw (proj 1 h)) = true /\
+  match world_history specs h with
+  | Ok [f0; f1; f2] => fld_idx_data f0 = ([0; 1; 3; 4], [97; 98; 99; 100])
+                       /\ fld_idx_data f1 = ([0; 1], [65]) /\ fld_plain_data f2 = [[1]; [2]]
+  | _ => False
+  end.
+Proof. vm_compute. repeat split; reflexivity. Qed.
+
+(* FULL.  Fields hold values, not objects.  In the model with array identity (the heap; a memory field's
+   _dataset is a reference), every history of caller statements (new array, a[:] = vals, a[i] = v) and
+   field operations (write_part of an array, of a view of it, of a view of a field's — also its own —
+   storage; complete; data[i] = v; clear) that the value semantics defines — i.e. without
+   move_mem=True and with in-range indices — ends with every caller array and every field holding
+   what the value semantics says: a write stores the values the argument had at the call, later
+   changes of the argument do not reach the field, and changing a field reaches neither another
+   field nor a caller array. *)
+Theorem fields_hold_values_not_objects : forall (A:Type) (zero:A) (backings:list bool) (ops:list (aop A))
+  (v:list (list A) * list (list A)),
+  v_run (v_fresh backings) ops = Some v -> aw_history zero backings ops = Ok v.
+Proof. exact @alias_free_lemma. Qed.
+Print Assumptions fields_hold_values_not_objects.
+
+(* one buffer refilled for each batch; the same array written to two fields, one of them edited *)
+Example fields_hold_values_not_objects_ex :
+  let ops := [CNew [1; 2]; FPart 0 (ACaller 0); CFill 0 [3; 4]; FPart 0 (ACaller 0); CSet 0 0 9;
+              FPart 1 (ACaller 0); FSetItem 1 1 7; FPart 0 (AField 0 1 3)] in
+  v_run (v_fresh [false; false]) ops = Some ([[9; 4]], [[1; 2; 3; 4; 2; 3]; [9; 7]])
+  /\ aw_history 0 [false; false] ops = Ok ([[9; 4]], [[1; 2; 3; 4; 2; 3]; [9; 7]]).
+Proof. split; vm_compute; reflexivity. Qed.
+
+(* OBSERVATION outside the property: write_part(a, move_mem=True) hands the array object over — the
+   field then changes when the caller edits a.  No code of the library passes move_mem=True; the value
+   semantics leaves such histories undefined.  The correspondence replays this on the real code. *)
+Theorem move_mem_aliases_outside_property :
+  aw_history 0 [false] [CNew [1; 2]; FPartMove 0 0 true; CSet 0 0 9] = Ok ([[9; 2]], [[9; 2]])
+  /\ aw_history 0 [false] [CNew [1; 2]; FPartMove 0 0 false; CSet 0 0 9] = Ok ([[9; 2]], [[1; 2]])
+  /\ v_run (v_fresh [false]) [CNew [1; 2]; FPartMove 0 0 true; CSet 0 0 9] = None.
+Proof. repeat split; vm_compute; reflexivity. Qed.
+Print Assumptions move_mem_aliases_outside_property.
